@@ -220,6 +220,16 @@ def check_repr(c):
 
 
 def gen_world_affine(rng: random.Random, tier: str):
+    # same-domain targets (grid.resize) for every representation x both conventions of the source grid, on every run
+    for a in AX:
+        for ac in (True, False):
+            d = rng.choice([2, 3])
+            src = small_grid(rng, d, 5, 9)
+            src["align_corners"] = ac
+            yield {"src": src, "tgt": small_grid(rng, d, 3, 6), "a": a, "seed": rng.randrange(1 << 30),
+                   "A": [[round(rng.uniform(-0.05, 0.05), 4) for _ in range(d)] for _ in range(d)],
+                   "t": [round(rng.uniform(-0.3, 0.3), 3) for _ in range(d)], "shrink": 0.5, "same_frame": False,
+                   "same_domain": [rng.choice([-2, -1, 1, 2, 3]) for _ in range(d)]}
     for _ in range(_n(tier, 30, 600, 90)):
         d = rng.choice([2, 3])
         src = small_grid(rng, d, 5, 9)
